@@ -40,7 +40,14 @@ def c14_nontrivial(c, ms):
 CONFIG = dict(
     modules=["SigModel.Props.C14"],
     theorems=["SigModel.Transient." + t for t in [
-        "C14_source_is_repaired"]],
+        "C14_source_is_repaired", "C14_atomic_ops", "C14_wiring",
+        "C14_replica_converges", "C14_replica_converges_map", "C14_replica_step",
+        "C14_unchanged_silent", "C14_changed_notifies_all", "C14_notification_means_change",
+        "C14_ttl_governed_by_latest", "C14_nothing_overdue", "C14_spec_latest_governs", "C14_spec_settle",
+        "C14_spec_overdue_iff", "C14_ttl_async", "C14_expiry_not_before_deadline",
+        "C14_callback_is_expiry_or_nothing",
+        "C14_original_clear_still_expires", "C14_original_aba_expires",
+        "C14_late_callback_needs_identity_check", "C14_original_cas_unchanged_notifies"]],
     generated=["Transient"],
     harness=dict(pkg="signaling", test="TestVerifC14", go="go1.26"),
     stats=c14_stats,
